@@ -95,6 +95,14 @@ FlagsAfter(fl, kind, sid, acts, i) ==
     ELSE LET a == acts[i] IN
          FlagsAfter(CASE a.k = kind -> fl \cup {Target(a, sid)} [] a.k = "PX" -> {} [] OTHER -> fl, kind, sid, acts, i + 1)
 
+\* the same, but a plan.clear() does not withdraw reports: whether a report made before a clear() is still "outstanding" is not said by
+\* any property, so the monitors keep a lower bound (succ / fail: certainly outstanding) and an upper bound (msucc / mfail: possibly)
+RECURSIVE FlagsAfterM(_, _, _, _, _)
+FlagsAfterM(fl, kind, sid, acts, i) ==
+    IF i > Len(acts) THEN fl
+    ELSE LET a == acts[i] IN
+         FlagsAfterM(CASE a.k = kind -> fl \cup {Target(a, sid)} [] OTHER -> fl, kind, sid, acts, i + 1)
+
 Targets(acts, kind, sid) == {Target(acts[i], sid) : i \in {q \in 1 .. Len(acts) : acts[q].k = kind}}
 
 RECURSIVE IsSubseq(_, _, _, _)
@@ -155,6 +163,7 @@ TkInit == [
     dm |-> 0, ds |-> NONE, dpos |-> 0, dseen |-> {},    \* current delivery, number of sub-deliveries so far and which ones
     lastacts |-> <<>>,                                  \* acts of the previous callback
     lastreq |-> NoT,                                    \* the most recent request (re-synchronised from every view)
+    msucc |-> {}, mfail |-> {},                         \* upper bounds of the outstanding reports (see FlagsAfterM)
     planx |-> <<>>,                                     \* tasks appended and neither removed, fired nor wiped (from actions only)
     inround |-> FALSE, rpend |-> NoT, rcancel |-> FALSE, rfirst |-> FALSE,
     surv |-> NoT, passed |-> {}, rounds |-> 0,
@@ -198,10 +207,10 @@ TkCall(tk, e) ==
     IN  CASE e.op = "ctor"   -> [TkInit EXCEPT !.alive = TRUE, !.incall = TRUE, !.op = "ctor", !.logger = HasLog /\ e.p # 0]
           [] e.op \in {"to", "ito"}     -> [base EXCEPT !.lastreq = <<NONE, e.a, 0>>]
           [] e.op \in {"with", "iwith"} -> [base EXCEPT !.lastreq = <<NONE, e.a, e.p>>]
-          [] e.op = "succeed" -> [base EXCEPT !.succ = @ \cup {e.a}]
-          [] e.op = "fail"    -> [base EXCEPT !.fail = @ \cup {e.a}]
+          [] e.op = "succeed" -> [base EXCEPT !.succ = @ \cup {e.a}, !.msucc = @ \cup {e.a}]
+          [] e.op = "fail"    -> [base EXCEPT !.fail = @ \cup {e.a}, !.mfail = @ \cup {e.a}]
           [] e.op = "attach"  -> [base EXCEPT !.logger = e.a # 0]
-          [] e.op = "load"    -> [base EXCEPT !.lastreq = NoT, !.planExists = FALSE, !.succ = {}, !.fail = {}, !.planv = <<>>, !.planx = <<>>]
+          [] e.op = "load"    -> [base EXCEPT !.lastreq = NoT, !.planExists = FALSE, !.succ = {}, !.fail = {}, !.msucc = {}, !.mfail = {}, !.planv = <<>>, !.planx = <<>>]
           [] e.op \in {"exit", "dtor"} -> [base EXCEPT !.lastreq = NoT]
           [] OTHER -> base
 
@@ -222,7 +231,8 @@ TkCb(tk, e) ==
                 THEN [t2 EXCEPT !.stepDone = TRUE, !.planBefore = tk.planv,
                                 !.fired = IF IsPlanCb(e.m) THEN <<>> ELSE [q \in 1 .. Len(pos) |-> tk.planv[pos[q]]],
                                 !.outcome = IF e.m = M_PLAN_SUCCEEDED THEN 1 ELSE IF e.m = M_PLAN_FAILED THEN 2 ELSE 0,
-                                !.succ = IF IsPlanCb(e.m) THEN @ ELSE @ \ {tk.planv[pos[q]][1] : q \in 1 .. Len(pos)}]
+                                !.succ = IF IsPlanCb(e.m) THEN @ ELSE @ \ {tk.planv[pos[q]][1] : q \in 1 .. Len(pos)},
+                                !.msucc = IF IsPlanCb(e.m) THEN @ ELSE @ \ {tk.planv[pos[q]][1] : q \in 1 .. Len(pos)}]
                 ELSE IF IsPlanCb(e.m) /\ ~cont THEN [t2 EXCEPT !.outcome = IF e.m = M_PLAN_SUCCEEDED THEN 1 ELSE 2]
                 ELSE t2
         t5   == IF RoundStart(tk, e)
@@ -238,6 +248,8 @@ TkCb(tk, e) ==
                            !.planx = IF cleared THEN <<>> ELSE PlanxAfter(pxs, planNow, e.acts, 1),
                            !.succ = IF cleared THEN {} ELSE FlagsAfter(@, "S", e.sid, e.acts, 1) \ exitClears,
                            !.fail = IF cleared THEN {} ELSE FlagsAfter(@, "F", e.sid, e.acts, 1) \ exitClears,
+                           !.msucc = FlagsAfterM(@, "S", e.sid, e.acts, 1) \ exitClears,
+                           !.mfail = FlagsAfterM(@, "F", e.sid, e.acts, 1) \ exitClears,
                            !.sawS = @ \cup Targets(e.acts, "S", e.sid),
                            !.sawF = @ \cup Targets(e.acts, "F", e.sid),
                            !.planExists = @ \/ HasAct(e.acts, "PC") \/ HasAct(e.acts, "PW"),
@@ -255,7 +267,8 @@ TkRet(tk, e) ==
         t2  == IF StepNow(tk, e)
                THEN [t1 EXCEPT !.stepDone = TRUE, !.planBefore = tk.planv,
                                !.fired = [q \in 1 .. Len(pos) |-> tk.planv[pos[q]]],
-                               !.succ = @ \ {tk.planv[pos[q]][1] : q \in 1 .. Len(pos)}]
+                               !.succ = @ \ {tk.planv[pos[q]][1] : q \in 1 .. Len(pos)},
+                               !.msucc = @ \ {tk.planv[pos[q]][1] : q \in 1 .. Len(pos)}]
                ELSE t1
         wipe == tk.op \in {"exit", "dtor"} \/ e.act = NONE
         px1  == IF StepNow(tk, e) THEN RemoveEach(tk.planx, t2.fired, 1) ELSE tk.planx
@@ -272,6 +285,8 @@ TkRet(tk, e) ==
                    !.planExists = IF wipe THEN FALSE ELSE @ \/ (tk.op \in {"pc", "pw"}),
                    !.succ = IF wipe \/ tk.op = "px" THEN {} ELSE @,
                    !.fail = IF wipe \/ tk.op = "px" THEN {} ELSE @,
+                   !.msucc = IF wipe THEN {} ELSE @,
+                   !.mfail = IF wipe THEN {} ELSE @,
                    !.lastreq = IF wipe THEN NoT ELSE @]
 
 TkStep(tk, e) ==
@@ -446,7 +461,7 @@ CheckCb(tk, e, tk2) ==
     \cup V(IsPhase(e.m) \/ e.m = M_QUERY => tk.op \in {"update", "react", "query"}, "C05", "phase callback outside update()/react()/query()")
     \* ---- C08 / C09: the plan step
     \cup V(step /\ HasHead /\ ~IsPlanCb(e.m) => IsSubseq(pn, pb, 1, 1), "C08", "tasks that did not fire were reordered or replaced in the plan step")
-    \cup V(step /\ HasHead /\ ~IsPlanCb(e.m) => \A q \in 1 .. Len(pos) : pos[q] <= PrefixLen(pb, a0, 1) /\ pb[pos[q]][1] \in tk.succ,
+    \cup V(step /\ HasHead /\ ~IsPlanCb(e.m) => \A q \in 1 .. Len(pos) : pos[q] <= PrefixLen(pb, a0, 1) /\ pb[pos[q]][1] \in tk.msucc,
            "C08", "a task fired whose origin is not the active state with an outstanding success, or past a task of another origin")
     \cup V(step /\ HasHead /\ ~IsPlanCb(e.m) => \A q \in 1 .. Len(pos) : pb[pos[q]][1] = pb[pos[q]][2] => \A z \in 1 .. Len(pos) : pos[z] <= pos[q],
            "C08", "a success report fired further tasks after a cyclic task had consumed it")
@@ -456,15 +471,15 @@ CheckCb(tk, e, tk2) ==
     \cup V(step /\ HasHead /\ rstart /\ proc /\ pos = <<>> /\ ~(e.pend[1] = tk.lastreq[1] /\ e.pend[2] = tk.lastreq[2])
              => ~\E q \in 1 .. Len(pb) : pb[q] = e.pend /\ pb[q][1] = a0,
            "C08", "a task issued its transition but was not removed from the plan")
-    \cup V(step /\ HasHead /\ pb # <<>> /\ pb[1][1] = a0 /\ a0 \in tk.succ /\ tk.fail = {} /\ tk.sawF = {} => ~IsPlanCb(e.m) /\ pos # <<>> /\ pos[1] = 1,
+    \cup V(step /\ HasHead /\ pb # <<>> /\ pb[1][1] = a0 /\ a0 \in tk.succ /\ tk.mfail = {} /\ tk.sawF = {} => ~IsPlanCb(e.m) /\ pos # <<>> /\ pos[1] = 1,
            "C08", "the first task did not fire although its origin is active and reported success without failures")
-    \cup V(step /\ HasHead /\ tk.lastreq # NoT /\ pb # <<>> /\ pb[1][1] = a0 /\ a0 \in tk.succ /\ tk.fail = {} /\ tk.sawF = {} => ~IsPlanCb(e.m) /\ pos # <<>> /\ pos[1] = 1,
+    \cup V(step /\ HasHead /\ tk.lastreq # NoT /\ pb # <<>> /\ pb[1][1] = a0 /\ a0 \in tk.succ /\ tk.mfail = {} /\ tk.sawF = {} => ~IsPlanCb(e.m) /\ pos # <<>> /\ pos[1] = 1,
            "C02", "the plan's request (the latest of the cycle) did not replace the earlier unprocessed request")
     \cup V(~step /\ ~IsPlanCb(e.m) /\ rstart /\ proc /\ tk.op \in {"update", "react"} /\ tk.stepDone /\ tk.rounds = 0 /\ tk.outcome = 2
              => ~(\E q \in 1 .. Len(tk.planBefore) : tk.planBefore[q] = e.pend) \/ (e.pend[1] = tk.lastreq[1] /\ e.pend[2] = tk.lastreq[2]),
            "C09", "a task fired in a cycle that delivered planFailed")
-    \cup V(e.m = M_PLAN_FAILED /\ start => tk.planExists /\ (a0 \in tk.fail \/ tk.sawF # {}), "C09", "planFailed delivered without an outstanding failure or without any task ever added")
-    \cup V(e.m = M_PLAN_SUCCEEDED /\ start => tk.planExists /\ pb = <<>> /\ (a0 \in tk.succ \/ tk.sawS # {}),
+    \cup V(e.m = M_PLAN_FAILED /\ start => tk.planExists /\ (a0 \in tk.mfail \/ tk.sawF # {}), "C09", "planFailed delivered without an outstanding failure or without any task ever added")
+    \cup V(e.m = M_PLAN_SUCCEEDED /\ start => tk.planExists /\ pb = <<>> /\ (a0 \in tk.msucc \/ tk.sawS # {}),
            "C09", "planSucceeded delivered while tasks remain, without an outstanding success, or without any task ever added")
     \cup V(IsPlanCb(e.m) /\ start => tk.outcome = 0 /\ step, "C09", "more than one plan outcome in one cycle, or outside the plan step")
     \cup V(step /\ pb # <<>> /\ a0 \in tk.fail /\ HasHead => e.m = M_PLAN_FAILED, "C09", "planFailed not delivered although the plan is non-empty and the active state reported failure")
@@ -532,7 +547,8 @@ CheckRet(tk, e, tk2) ==
     \* ---- C05: query
     \cup V(tk.op = "query" => Unchanged(tk, e), "C05", "query() changed the machine")
     \cup (IF ~FullObs THEN {} ELSE
-       V(tk.op = "query" => tk.dseq = (IF HasHead THEN <<<<M_QUERY, NONE>>, <<M_QUERY, a0>>>> ELSE <<<<M_QUERY, a0>>>>), "C05", "query() did not invoke query on the root and the active state exactly once")
+       V(tk.op = "query" => tk.dseq \in (IF HasHead THEN {<<<<M_QUERY, NONE>>, <<M_QUERY, a0>>>>, <<<<M_QUERY, a0>>, <<M_QUERY, NONE>>>>} ELSE {<<<<M_QUERY, a0>>>>}),
+         "C05", "query() did not invoke query on the root and the active state exactly once (in either order)")
     \cup V(tk.op = "update" => Len(tk.dseq) >= PhaseDeliveries /\ SubSeq(tk.dseq, 1, PhaseDeliveries) =
              (IF HasHead THEN <<<<M_PRE_UPDATE, NONE>>, <<M_PRE_UPDATE, a0>>, <<M_UPDATE, NONE>>, <<M_UPDATE, a0>>, <<M_POST_UPDATE, a0>>, <<M_POST_UPDATE, NONE>>>>
               ELSE <<<<M_PRE_UPDATE, a0>>, <<M_UPDATE, a0>>, <<M_POST_UPDATE, a0>>>>),
@@ -565,11 +581,11 @@ CheckRet(tk, e, tk2) ==
            "C07", "a task fired with a payload other than the one it was appended with")
     \* ---- C08 / C09 when the plan step was the last thing visible
     \cup V(step /\ HasHead => IsSubseq(e.plan, pb, 1, 1), "C08", "tasks that did not fire were reordered or replaced in the plan step")
-    \cup V(step /\ HasHead => \A q \in 1 .. Len(pos) : pos[q] <= PrefixLen(pb, a0, 1) /\ pb[pos[q]][1] \in tk.succ,
+    \cup V(step /\ HasHead => \A q \in 1 .. Len(pos) : pos[q] <= PrefixLen(pb, a0, 1) /\ pb[pos[q]][1] \in tk.msucc,
            "C08", "a task fired whose origin is not the active state with an outstanding success, or past a task of another origin")
-    \cup V(step /\ HasHead /\ pb # <<>> /\ pb[1][1] = a0 /\ a0 \in tk.succ /\ tk.fail = {} /\ tk.sawF = {} => pos # <<>> /\ pos[1] = 1,
+    \cup V(step /\ HasHead /\ pb # <<>> /\ pb[1][1] = a0 /\ a0 \in tk.succ /\ tk.mfail = {} /\ tk.sawF = {} => pos # <<>> /\ pos[1] = 1,
            "C08", "the first task did not fire although its origin is active and reported success without failures")
-    \cup V(step /\ HasHead /\ tk.lastreq # NoT /\ pb # <<>> /\ pb[1][1] = a0 /\ a0 \in tk.succ /\ tk.fail = {} /\ tk.sawF = {} => pos # <<>> /\ pos[1] = 1,
+    \cup V(step /\ HasHead /\ tk.lastreq # NoT /\ pb # <<>> /\ pb[1][1] = a0 /\ a0 \in tk.succ /\ tk.mfail = {} /\ tk.sawF = {} => pos # <<>> /\ pos[1] = 1,
            "C02", "the plan's request (the latest of the cycle) did not replace the earlier unprocessed request")
     \cup V(step /\ pb # <<>> /\ a0 \in tk.fail /\ HasHead => FALSE, "C09", "planFailed not delivered although the plan is non-empty and the active state reported failure")
     )
